@@ -2,6 +2,7 @@
 import math
 
 import torch
+from .core import sint
 
 
 class Scheme:
@@ -56,7 +57,7 @@ class Scheme:
         for row in bp.tolist():
             v = 0
             for bit in row:
-                v = v * 2 + int(round(bit))
+                v = v * 2 + sint(bit)
             out.append(v)
         return out
 
@@ -140,7 +141,7 @@ def bits_to_tensor(bits, shape=None):
 
 
 def out_bits(t):
-    return [int(round(float(v))) if abs(float(v) - round(float(v))) < 1e-6 and float(v) in (0.0, 1.0) else -1 for v in t.reshape(-1).tolist()]
+    return [sint(float(v)) if abs(float(v) - round(float(v))) < 1e-6 and float(v) in (0.0, 1.0) else -1 for v in t.reshape(-1).tolist()]
 
 
 def nearest_index(z, pts, tol=1e-4):
@@ -159,7 +160,7 @@ def scheme_event(s, tid, limit=8000):
     if pts is None or labels is None:
         return None
     S = int(scale_for(pts, limit))
-    ipts = [[int(round(x * S)), int(round(y * S))] for x, y in pts]
+    ipts = [[sint(x * S), sint(y * S)] for x, y in pts]
     modidx = []
     if s.kind != "oqpsk" and len(labels) == len(pts):
         m = s.mod()
